@@ -233,7 +233,11 @@ SCENARIOS = {
   'wake1+1':   (['w', 'w'], 'T'),
   'wake2':     (['ww'], 'T'),
   'call+wake': (['cw', 'c'], 'T'),
-  'wake+coop': (['w'], 'TW'),          # W: a cooperative task wakes T as well (scheduler-thread path of schedule())
+  'wake+coop': (['w'], 'TW'),
+  'wake2+coop': (['ww'], 'TW'),
+  # a foreign wake that coincides with a cooperative one (a task started at the same moment wakes T in its first slice, before the foreign
+  # thread's ScheduleTask gets its turn), the foreign thread waits until T has run ('r'), then wakes it again: none is lost
+  'wake-coop-wake': (['wrw'], 'TV'),          # W: a cooperative task wakes T as well (scheduler-thread path of schedule())
   'sync':      (['Ss'], 'K'),          # K: a cooperative task that keeps stepping
   'sync+call': (['Ss', 'c'], 'K'),
   'sync2':     (['Ss', 'Ss'], 'K'),
@@ -331,6 +335,9 @@ def h_preempt(ctx, scenario, hub, bound, nondefault=False):
       for ch in prog:
         if ch == 'c': submit(name)
         elif ch == 'w': wake()
+        elif ch == 'r':
+          mine = wakes[-1][0] if wakes else 0
+          ctl.block(lambda: any(t > mine for t in truns), None, 'wait-until-the-woken-task-ran')
         elif ch in 'SNX':
           depth = 2 if ch == 'N' else 1
           def section(d):
@@ -366,6 +373,11 @@ def h_preempt(ctx, scenario, hub, bound, nondefault=False):
     def on_stuck(timed):
       if phase[0] == 0:
         phase[0] = 1
+        if 'V' in extras:
+          def cowake_first():
+            wake()
+            yield 0
+          R.Task(target=cowake_first).start(s, fast=True)
         for i, prog in enumerate(progs):
           fthreads.append(ctl.spawn('F%d' % i, foreign, 'F%d' % i, prog)); fthreads[-1].prio = 0
         return 'continue'
